@@ -264,7 +264,7 @@ module_stmt :
 
 
 belongs_to_def :
-    kywd_belongs_to token_string {
+    kywd_belongs_to string_value {
         l := yylex.(*lexer)
         l.stack.push(l.builder.BelongsTo(l.stack.peek(), $2))
         if chkErr(yylex, l.builder.LastErr) {
@@ -374,7 +374,7 @@ include_stmt :
     }
 
 revision_date_stmt :
-    kywd_revision_date token_string token_semi {
+    kywd_revision_date string_value token_semi {
         l := yylex.(*lexer)
         l.builder.SetRevisionDate(l.stack.peek(), $2)
     }
@@ -1525,9 +1525,9 @@ enum_stmt :
     }
 
 enum_def : 
-    kywd_enum token_string {
+    kywd_enum string_value {
         l := yylex.(*lexer)
-        l.stack.push(l.builder.Enum(l.stack.peek(), trimQuotes($2)))
+        l.stack.push(l.builder.Enum(l.stack.peek(), $2))
         if chkErr(yylex, l.builder.LastErr) {
             goto ret1
         }
@@ -1631,7 +1631,7 @@ unknown_stmt :
     }
 
 yin_ext_def :
-    token_unknown token_string token_curly_open {
+    token_unknown string_value token_curly_open {
         l := yylex.(*lexer)
         $$ = l.builder.Extension($1, $2)
         if chkErr(yylex, l.builder.LastErr) {
